@@ -120,6 +120,8 @@ class C17(runner.Check):
 		w = r.choice([50, 50, 64, 100, 100, 200, 333, 500])
 		ow = r.choice([w, w - 1, w // 2, w // 2 + 1, 10])
 		use_bw = r.chance(0.45)
+		if not use_bw and r.chance(0.25):
+			ow = w + r.choice([1, 7, w // 2, w])       # only legal without a bigwig
 		chroms = []
 		for i in range(r.randint(1, 5)):
 			n_tiles = r.randint(2, 40 if w <= 200 else 14)
@@ -134,7 +136,7 @@ class C17(runner.Check):
 			chroms.append({"name": "chr%d" % (i + 1), "length": L, "seq_seed": r.subseed(),
 				"blocks": blocks, "n_bumps": r.randint(0, 6), "n_gaps": r.randint(0, 3),
 				"gap_len": r.choice([60, 60, 2 * w, 4 * w]),
-				"base": r.choice([0.0, 0.0, 0.5, 1.0, 2.0])})
+				"base": r.choice([0.0, 0.0, 0.5, 1.0, 2.0, -1.0, -3.0])})
 		loci = []
 		n_loci = r.wchoice([r.randint(5, 30), r.randint(30, 200)], [3, 1])
 		loci_chroms = r.sample(chroms, r.randint(1, len(chroms)))
